@@ -389,16 +389,28 @@ static int processAndInsertNode(KSI_TreeBuilder *builder, KSI_TreeNode *node) {
 		if (tmp != NULL) {
 			res = KSI_TreeNode_join(builder->ctx, builder->hsr, tmp, localRoot == NULL ? node : localRoot, &localRoot);
 			if (res != KSI_OK) goto cleanup;
+			/* Now owned by the local root. */
+			tmp = NULL;
 		}
 	}
 
 	res = insertNode(builder, localRoot == NULL ? node : localRoot, 0);
 	if (res != KSI_OK) goto cleanup;
 
+	localRoot = NULL;
 	tmp = NULL;
 
 cleanup:
 
+	if (localRoot != NULL) {
+		/* Failure: discard the nodes created here. The input node still belongs to the caller. */
+		if (node->parent != NULL) {
+			if (node->parent->leftChild == node) node->parent->leftChild = NULL;
+			if (node->parent->rightChild == node) node->parent->rightChild = NULL;
+			node->parent = NULL;
+		}
+		KSI_TreeNode_free(localRoot);
+	}
 	KSI_TreeNode_free(tmp);
 
 	return res;
